@@ -231,6 +231,70 @@ def history_cases():
     return out
 
 
+def mcmc_offset_cases():
+    """The MCMC model setup_mcmc builds from multi-survey data given as a list, a dict of named surveys and a dict with integer labels
+    that are not 0..n: raising the first offset by 5 (data units) moves the model velocities of exactly the second survey's epochs by 5."""
+    import warnings
+
+    import astropy.units as u
+    import kernelcase as K
+    import pytensor
+    from thejoker.data_helpers import validate_prepare_data
+    from thejoker.samples import JokerSamples
+    from thejoker.thejoker import TheJoker
+
+    out = []
+    rng = np.random.default_rng(4711)
+    spec = None
+    for _ in range(200):
+        sp = K.gen_spec(rng, n_max=6, tier="quick", full_frac=0.0)
+        if sp["n_off"] >= 1 and sp["kprior"] == "default":
+            spec = sp
+            break
+    if spec is None:
+        return [(dict(family="mcmc_offsets"), "no multi-survey specification generated")]
+    spec["theta"]["s"] = 0.0
+    for label in ("list", "dict of named surveys", "dict with integer labels 10, 20, .."):
+        try:
+            with warnings.catch_warnings():
+                warnings.simplefilter("ignore")
+                data, prior, _ = K.build_problem(spec)
+                all_data, ids, trend_M = validate_prepare_data(data, prior.poly_trend, prior.n_offsets)
+                second = np.asarray(trend_M)[:, 1] == 1.0  # epochs of the survey the first offset belongs to
+                if label.startswith("dict of named"):
+                    data = dict(zip(["apogee", "harps", "lamost"], data))
+                elif label.startswith("dict with integer"):
+                    data = dict(zip([10, 20, 30], data))
+                du = u.Unit(spec["data_unit"])
+                names = ["K", "v0"] + [o["name"] for o in spec["offs"]] + [f"v{i}" for i in range(1, spec["n_poly"])]
+                smp = JokerSamples(poly_trend=spec["n_poly"], n_offsets=spec["n_off"], t_ref=all_data.t_ref)
+                th = spec["theta"]
+                smp["P"], smp["e"], smp["omega"], smp["M0"], smp["s"] = [th["P"]] * u.day, [th["e"]] * u.one, [th["omega"]] * u.rad, [th["M0"]] * u.rad, [0.0] * du
+                for nm in names:
+                    smp[nm] = [1.0] * du / u.day ** K.lin_power(nm)
+                model = prior.model
+                TheJoker(prior, rng=np.random.default_rng(0)).setup_mcmc(data, smp, model=model)
+                rvn = [v.name for v in model.free_RVs]
+                fn = pytensor.function([prior.pars[nm] for nm in rvn], model["model_rv"], on_unused_input="ignore")
+                import thejoker.units as xu
+
+                unit_of = lambda nm: getattr(prior.pars[nm], xu.UNIT_ATTR_NAME)
+                val = {nm: float(smp[nm][0].to_value(unit_of(nm))) for nm in rvn if nm in smp.par_names}
+                off = spec["offs"][0]["name"]
+                step = float((5.0 * du).to_value(unit_of(off)))
+                r0 = np.asarray(fn(*[np.float64(val[nm]) for nm in rvn]), float)
+                r5 = np.asarray(fn(*[np.float64(dict(val, **{off: val[off] + step})[nm]) for nm in rvn]), float)
+        except Exception as e:
+            out.append((dict(family="mcmc_offsets", input=label), f"setup_mcmc with {label}: raised {type(e).__name__}: {str(e)[:200]}"))
+            continue
+        resp = r5 - r0
+        want = np.where(second, 5.0, 0.0)
+        if resp.shape != want.shape or not np.allclose(resp, want, atol=1e-7 * max(1.0, float(np.max(np.abs(r0))))):
+            out.append((dict(family="mcmc_offsets", input=label), f"setup_mcmc with {label}: raising {off} by 5 {spec['data_unit']} moves the model velocities by {np.round(resp, 6).tolist()}, "
+                        f"expected {want.tolist()} (only the epochs of the survey that offset belongs to)"))
+    return out
+
+
 def run_cases(ctx, cases):
     terms, kept, nt = [], [], 0
     for c in cases:
@@ -282,11 +346,14 @@ def run(ctx):
     for case, msg in history_cases():
         ctx.fail("predicate", "C08:history", msg, case=case)
     n_eval += 3
+    for case, msg in mcmc_offset_cases():
+        ctx.fail("predicate", "C08:mcmc-offsets", msg, case=case)
+    n_eval += 3
     ctx.coverage.update(evaluations=n_eval, distinct_nontrivial=nt)
     return ctx.finish(
         rule="2..5 surveys of 1..8 epochs; layouts disjoint / interleaved / identical epochs / reversed / random; list, int-keyed dict and "
         "string-keyed dict in arbitrary key order; second and later sources optionally in m/s; poly_trend 1..3; plus the 4x4 grid of "
-        "(number of sources, number of offset priors); 3 two-call histories on one TheJoker (the same observations divided between the surveys differently, then the data proper). Non-trivial = surveys overlap in time",
+        "(number of sources, number of offset priors); 3 two-call histories on one TheJoker (the same observations divided between the surveys differently, then the data proper); the offset response of the MCMC model for list / named-dict / integer-label-dict input. Non-trivial = surveys overlap in time",
         assumptions=["astropy unit conversion of later sources into the first source's unit is trusted (the converted values are the model's inputs)",
                      "numpy.unique orders labels ascending (ints numerically, strings by code point)"],
     )
@@ -296,7 +363,7 @@ def replay(ctx, path):
     payload = json.load(open(path))
     ctx.make_overlay(need_kernel=True)
     case = payload.get("case")
-    if case is None or case.get("family") in ("arity", "history"):
+    if case is None or case.get("family") in ("arity", "history", "mcmc_offsets"):
         return run(ctx)
     ctx.regen_all()
     if ctx.build_models(MODELS):
